@@ -223,6 +223,7 @@ _mtbl_sorter_write_chunk(struct entry_batch *b)
 				if (merge_val == NULL) {
 					free(b);
 					mtbl_writer_destroy(&w);
+					close(fd);
 					return (NULL);
 				}
 				size_t len = sizeof(struct entry) + ent->len_key + len_merge_val;
@@ -252,10 +253,16 @@ _mtbl_sorter_write_chunk(struct entry_batch *b)
 	entry_vec_destroy(&b->entries);
 	free(b);
 
-	if (res != mtbl_res_success)
-		return (NULL);
+	/*
+	 * The writer and the reader each keep their own reference to the
+	 * temporary file (dup() / mmap()); ours is no longer needed.
+	 */
+	struct mtbl_reader *r = NULL;
+	if (res == mtbl_res_success)
+		r = mtbl_reader_init_fd(fd, NULL);
+	close(fd);
 
-	return (mtbl_reader_init_fd(fd, NULL));
+	return (r);
 }
 
 mtbl_res
